@@ -17,6 +17,10 @@ import (
 
 type c06Case struct {
 	Frames []m.Bytes
+	// Valid[i]: frame i is a well-formed packet by construction (an encoding of a D-value in
+	// the form the library reads, the library's own output, or a raw frame of an unregistered
+	// type), so it must be accepted - alone and in any datagram.
+	Valid []bool `json:",omitempty"`
 	// Fault: "", "truncate", "surplus", "overlong-header", "empty"
 	Fault string `json:",omitempty"`
 	Arg   int    `json:",omitempty"` // truncate: octets removed from the end; surplus: octets appended
@@ -134,6 +138,9 @@ var subC06 = harness.NewSub("c06-datagram-split-local-all-or-nothing", func(c c0
 		singles = append(singles, d)
 	}
 	whole, werr := decodeAll(dg)
+	if firstErr != nil && firstBad < len(c.Valid) && c.Valid[firstBad] {
+		return fmt.Errorf("frame %d is a well-formed packet by construction but is rejected when decoded alone: %v\nframe: %s", firstBad, firstErr, hexs(c.Frames[firstBad]))
+	}
 	if firstErr != nil {
 		if werr == nil {
 			return fmt.Errorf("frame %d is rejected when decoded alone (%v) but the datagram containing it is accepted (%d packets)\nframe: %s", firstBad, firstErr, len(whole.vals), hexs(c.Frames[firstBad]))
@@ -189,26 +196,40 @@ func restConsuming(f []byte) bool {
 	return false
 }
 
-func genC06Frame(t *rapid.T) []byte {
+// c06Readable adjusts a D-value so that its encoding is one the library is able to read back
+// (the listed CCFB findings are about values it cannot: one-metric blocks, blocks spanning the wrap).
+func c06Readable(p m.Packet) m.Packet {
+	if p.Kind == m.KCCFB {
+		if len(p.CCFB.Blocks) > 2 {
+			p.CCFB.Blocks = p.CCFB.Blocks[:2]
+		}
+		for i := range p.CCFB.Blocks {
+			b := &p.CCFB.Blocks[i]
+			if len(b.Metrics) == 1 || int(b.BeginSeq)+len(b.Metrics) > 65535 {
+				b.Metrics = nil
+			}
+		}
+	}
+	return p
+}
+
+func genC06Frame(t *rapid.T) ([]byte, bool) {
 	switch rapid.IntRange(0, 9).Draw(t, "frame.kind") {
 	case 0, 1, 2, 3:
 		// reference encoding in the form pion's decoders read (so that typed decoders succeed)
-		p := gen.Packet(t)
-		if p.Kind == m.KCCFB && len(p.CCFB.Blocks) > 2 {
-			p.CCFB.Blocks = p.CCFB.Blocks[:2]
-		}
+		p := c06Readable(gen.Packet(t))
 		e, err := m.Encode(p, &m.EncOpts{D: gen.PionDialect})
 		if err != nil {
 			panic(err)
 		}
-		return e.B
+		return e.B, true
 	case 4, 5:
 		// the library's own output
-		p := gen.Packet(t)
-		if b, err := conv.ToPion(p).Marshal(); err == nil && len(b) >= 4 && len(b)%4 == 0 {
-			return b
+		p := c06Readable(gen.Packet(t))
+		if b, err := safeMarshal(conv.ToPion(p)); err == nil && len(b) >= 4 && len(b)%4 == 0 {
+			return b, true
 		}
-		return []byte{0x80, 201, 0, 1, 0, 0, 0, 1}
+		return []byte{0x80, 201, 0, 1, 0, 0, 0, 1}, true
 	case 6:
 		// strict reference encoding (SLI as 206/2, CCFB num_reports = n): may be rejected - then the datagram must be too
 		p := gen.Packet(t)
@@ -216,9 +237,9 @@ func genC06Frame(t *rapid.T) []byte {
 		if err != nil {
 			panic(err)
 		}
-		return e.B
+		return e.B, false
 	case 7:
-		return gen.ForcedHeader(t, 10)
+		return gen.ForcedHeader(t, 10), false
 	case 8:
 		// a valid encoding with a mutated body (still well framed)
 		_, b := gen.SeedEncoding(t)
@@ -226,23 +247,26 @@ func genC06Frame(t *rapid.T) []byte {
 			off := rapid.IntRange(4, len(b)-1).Draw(t, "mut.off")
 			b[off] = rapid.SampledFrom([]byte{0, 1, 0x7F, 0x80, 0xFF}).Draw(t, "mut.v")
 		}
-		return b
+		return b, false
 	default:
-		// raw frame with arbitrary PT/FMT
+		// raw frame with arbitrary PT/FMT: valid whenever its type has no row in the dispatch table
 		words := rapid.IntRange(0, 6).Draw(t, "raw.words")
 		b := []byte{0x80 | byte(rapid.IntRange(0, 31).Draw(t, "raw.count")), rapid.Byte().Draw(t, "raw.pt"), 0, byte(words)}
-		return append(b, gen.BytesN(t, 4*words, "raw.body")...)
+		b = append(b, gen.BytesN(t, 4*words, "raw.body")...)
+		return b, m.Dispatch(b[1], b[0]&0x1f, m.Strict) == m.KRAW && !(b[1] == 206 && b[0]&0x1f == 2)
 	}
 }
 
 func TestC06(t *testing.T) {
+	defer harness.Uncaught(t)
 	harness.RapidCheck(t, harness.Scale(5000, 40000), 6, func(rt *rapid.T) {
 		n := rapid.IntRange(1, 12).Draw(rt, "nframes")
 		var c c06Case
 		total := 0
 		for i := 0; i < n; i++ {
-			f := genC06Frame(rt)
+			f, valid := genC06Frame(rt)
 			c.Frames = append(c.Frames, f)
+			c.Valid = append(c.Valid, valid)
 			total += len(f)
 		}
 		c.Fault = rapid.SampledFrom([]string{"", "", "", "", "", "", "truncate", "truncate", "surplus", "surplus", "overlong-header", "overlong-header", "empty"}).Draw(rt, "fault")
@@ -282,7 +306,7 @@ func TestC06(t *testing.T) {
 			for _, f := range c.Frames {
 				dg = append(dg, f...)
 			}
-			if _, err := rtcp.Unmarshal(dg); err == nil {
+			if _, err := safeUnmarshal(dg); err == nil {
 				cl = append(cl, "fault-free:all-frames-accepted")
 			} else {
 				cl = append(cl, "fault-free:some-frame-rejected")
